@@ -37,6 +37,8 @@ REGISTRY = [
      ["tools/replay_real.sh", "findings/D9_D10_cloexec_noctty.rs", "verif_replay_d10"]),
     (r"frozenfd\.error_value_construction",
      ["tools/replay_real.sh", "findings/D11_frozenfd_recursion.rs", "verif_replay_d11_error"]),
+    (r"protected_symlinks_rule_applies_to_the_trailing_link_only|protected_symlinks_checked_before_a_trailing_link_is_read",
+     ["tools/replay_real.sh", "findings/D12_protected_symlinks_intermediate.rs", "verif_replay_d12"]),
     (r"static GLOBAL_PROCFS_HANDLE",
      ["tools/replay_real.sh", "findings/D5c_global_procfs_init.rs", "verif_replay_d5c"]),
     (r"static PROTECTED_SYMLINKS_SYSCTL",
